@@ -255,7 +255,16 @@ def divergence_matches(cls, back, detail):
     return True      # K_empty_nt: token skipped (grammar differs) or ParseCancellationException
 
 
+def closed_grammar(g):
+    """every nonterminal used on a right-hand side is defined (the part of is_valid_grammar that the
+    generator can break by accident: '<langle' + '>' glued together from two terminals)"""
+    return all(n in g for n in used_nonterminals(g))
+
+
 def classify_property(run, g, back, findings, failing):
+    if not closed_grammar(g) and not K_empty_nt(g):
+        # malformed stream: outside the property's quantifier; only compared model <-> implementation
+        return "malformed"
     verdict, detail = property_holds(g, back)
     if verdict is False:
         hit = [e for e in findings if e["status"] == "open" and CLASSES[e["class"]](g)
@@ -277,6 +286,8 @@ def run(run):
                        "re-parsed grammar of the implementation compared with the model in Coq, and the property itself "
                        "(identity / same language up to length %d) evaluated on the implementation; (b) random well-formed "
                        "BNF texts (comments, ';', escapes the printer never emits) through parse_bnf vs. the model. "
+                       "Grammars that use an undefined nonterminal (generator accidents such as '<langle' + '>') form a "
+                       "malformed stream: compared model <-> implementation only, the property is not evaluated on them. "
                        "non-trivial = some terminal contains a character that the printer escapes, or '<'" % LANG_N)
     proof_ok = run.proof_stage()
     findings = lib.known_findings("C11")
@@ -294,13 +305,13 @@ def run(run):
         if verdict is False:
             run.known(e["what"])
 
-    n_gram = 2400 if thorough else 800
-    n_text = 900 if thorough else 200
+    n_gram = 2400 if thorough else 500
+    n_text = 900 if thorough else 120
     feed = CharFeed(rng)
     cases, meta = [], []
     seen_chars = set()
     hist = {"identity": 0, "langle": 0, "raise": 0, "empty_alt": 0, "ge256": 0, "known": 0, "holds": 0,
-            "undecided": 0, "fails": 0}
+            "undecided": 0, "fails": 0, "malformed": 0}
     failing = []
     for i in range(n_gram):
         g = gen_grammar(rng, feed)
@@ -336,7 +347,7 @@ def run(run):
 
     disagreements = []
     try:
-        bad, dt = lib.coq_mismatches("c11", "Outcome Str BnfEscape", OK_DEF, cases, shard=250, extra_defs=EXTRA)
+        bad, dt = lib.coq_mismatches("c11", "Outcome Str BnfEscape", OK_DEF, cases, shard=250 if thorough else 210, extra_defs=EXTRA)
         run.cov["coq_seconds"] = round(dt, 1)
         for i in bad:
             kind, g, text, back = meta[i]
